@@ -367,6 +367,7 @@ impl Parser {
                 }
                 _ => {
                     // only loops support labels for now
+                    self.push_error("expected 'loop' or 'while' after a label");
                     Ok(Statement::Invalid)
                 }
             };
